@@ -201,6 +201,8 @@ def rand_vectors(prop, cfg, n, seed):
                 x = {"t": T.interesting_times(rng, pre, HI + 500, 1)[0], "l": "x"}
             args = {"x": x, "cmode": rng.choice(["error", "replace", "merge"]), "rmode": rng.choice(["silence", "warning"]),
                     "padlabel": rng.random() < 0.3}
+            if rng.random() < 0.05:
+                args[rng.choice(["cmode", "rmode"])] = "bogus"             # an invalid option value: rejected, nothing changes
         elif op == "deleteEntry":
             if pre["ents"] and rng.random() < 0.8:
                 x = dict(rng.choice(pre["ents"]))
